@@ -81,7 +81,7 @@ CLAIMED = {
     "C01": (
         "proof",
         "Coq theorems on the whole-pipeline Gallina model (every unguarded Python read modelled as a raising read, every loop on explicit fuel) + whole-pipeline differential correspondence incl. exception class and termination + totality exploration of the implementation",
-        "The model of parse/render (block parser, inline parser, core chain, renderer; coq/Model) raises exactly where an unguarded read of the Python source would and runs every loop on fuel, so 'total' is the statement 'never Raise, never OutOfFuel'. Proved for ALL inputs so far (partial): numeric character references only reach chr() with a valid code point (C01_entity_chr_safe, C01_entity_codes_nonneg), the renderer never raises on any token list (C01_render_total), skipToken never recurses past maxNesting (C01_skip_token_cap), reads of the line tables inside their range succeed (C01_table_read_in_range) and every read of a fresh StateBlock's tables at a line in [0, lineMax] succeeds for every source (C01_fresh_tables_readable). The whole-pipeline totality theorem is NOT proved: per-rule safety is decided each run by comparing model and implementation on exception class and termination over ~500 (quick) (configuration, API, document) cases, and by exploring the implementation: generated documents x configuration lattice x 4 APIs, ALL pairs of 47 line shapes and sampled 3-4 line sequences, truncated seeds, 40 deep-nesting/long-run families, Unicode white space at every trimming/splitting site, CLI on arbitrary bytes, the documented TypeErrors - each under a wall-clock limit.",
+        "The model of parse/render (block parser, inline parser, core chain, renderer; coq/Model) raises exactly where an unguarded read of the Python source would and runs every loop on fuel, so 'total' is the statement 'never Raise, never OutOfFuel'. Proved for ALL inputs so far (partial): the block line loop makes progress - one pass over any rule chain containing paragraph ends with some rule succeeded and the cursor strictly advanced inside the line table, and the nested tokenize of block quotes / list items advances too (C01_block_loop_progress, C01_nested_tokenize_progress; Lemmas/MapWhole.v), so the loop cannot spin and 'none of the block rules matched' cannot happen;  numeric character references only reach chr() with a valid code point (C01_entity_chr_safe, C01_entity_codes_nonneg), the renderer never raises on any token list (C01_render_total), skipToken never recurses past maxNesting (C01_skip_token_cap), reads of the line tables inside their range succeed (C01_table_read_in_range) and every read of a fresh StateBlock's tables at a line in [0, lineMax] succeeds for every source (C01_fresh_tables_readable). The whole-pipeline totality theorem is NOT proved: per-rule safety is decided each run by comparing model and implementation on exception class and termination over ~500 (quick) (configuration, API, document) cases, and by exploring the implementation: generated documents x configuration lattice x 4 APIs, ALL pairs of 47 line shapes and sampled 3-4 line sequences, truncated seeds, 40 deep-nesting/long-run families, Unicode white space at every trimming/splitting site, CLI on arbitrary bytes, the documented TypeErrors - each under a wall-clock limit.",
         "Trusted: Coq kernel; hand model tied to the code by sampled correspondence; totality of the whole pipeline is exploration, not a theorem (partial); re/str primitives assumed non-raising on str; linkify-it-py absent.",
         "DESIGN.md §3 C01",
     ),
@@ -94,9 +94,9 @@ CLAIMED = {
     ),
     "C03": (
         "proof",
-        "Coq proofs on the block model (thematic break rule, line scanner) + whole-pipeline differential correspondence incl. maps + source-map predicate on implementation streams",
-        "Theorems: for EVERY source the line tables of a fresh StateBlock are five lists of length lineMax+1 whose rows satisfy 0 <= bMarks <= bMarks+tShift <= eMarks <= len(src) and 0 <= sCount - the ranges every map and content slice is computed from (C03_line_tables_well_formed); for EVERY state each leaf rule (code, fence, hr, heading, html_block, paragraph, lheading), when it succeeds, moves the line cursor strictly past its start line and not beyond the end line it was given (the paragraph: lineMax), and every token it appends carries a map [b, e) with startLine <= b < e <= new line (C03_code_maps ... C03_lheading_maps; the paragraph / lheading theorems for any terminator callback that leaves the token list alone); the thematic break rule maps exactly its own line (C03_hr_map); the line scanner is a left fold that splits at any point (C03_line_scan_splits). Containers, tables, definitions and the nesting / ordering / coverage clauses are not theorems. The general map law (maps lie inside the document, children nest inside parents, siblings are ordered and disjoint, each block's map covers exactly its lines) is decided each run on the implementation by the map predicate over the syntax tree for ~2000 (quick) generated documents in random configurations, while the correspondence ties every map the model computes to the implementation's.",
-        "Trusted: Coq kernel; block model tied by sampled correspondence; general map law by exploration (partial).",
+        "Coq theorem on the whole block-parser model (every map in range and non-empty, for every source / configuration) + whole-pipeline differential correspondence incl. maps + source-map predicate on implementation streams",
+        "Theorems. WHOLE BLOCK PARSER (C03_block_parse_maps): for EVERY source, env and every configuration that has the paragraph rule and whose named terminator chains hold only rules with a silent mode (proved for every Ruler-compiled configuration of the generated rule table, C03_ruler_cfg_silent_terms), every token ParserBlock.parse appends carries a map [b, e) with 0 <= b < e <= lineMax or none, and the cursor ends inside the line table. The proof is a contract per rule (C03_rule_contract: on success the cursor moves strictly forward, stays inside the table, appended maps lie in [startLine, new line]; on failure / silent mode the state comes back unchanged) for all 11 rules incl. block quote and list (tables rewritten and restored, after-the-fact map patches, nested tokenize progress so container maps are non-empty, C03_tokenize_contract), table (tbody / table placeholders) and reference (its line counter is bounded by the line feeds of the lines read: a table invariant - no line feed between a start mark and its end mark - holds for fresh tables, C03_fresh_tables_invariant, and is kept by every rewrite). Also: line tables of a fresh StateBlock well formed (C03_line_tables_well_formed); per-leaf-rule forms (C03_*_maps). Not theorems: maps start / end on non-blank lines, sibling order, coverage of every non-blank line, inline-content line correspondence - these are decided by the map predicate on implementation streams and the correspondence (maps are part of the compared token dicts).",
+        "Trusted: Coq kernel; block model tied by sampled correspondence; the rest of the map law (blank-line ends, sibling order, coverage) by exploration (partial).",
         "DESIGN.md §3 C03",
     ),
     "C08": (
